@@ -30,6 +30,9 @@ PtC(e, k)       == Ora(e, "ptc", k, Zeros(33))
 PtU(e, k)       == Ora(e, "ptu", k, Zeros(65))
 \* compressed SEC of P + Q for compressed SEC inputs; <<>> for infinity
 PtAddC(e, P, Q) == Ora(e, "ptadd", <<P, Q>>, Zeros(33))
+\* Unicode NFKD of a code-point sequence; PBKDF2-HMAC-SHA512
+NfkdO(e, cps) == Ora(e, "nfkd", cps, cps)
+Pbkdf2O(e, pw, salt, rounds, dklen) == Ora(e, "pbkdf2", <<pw, salt, rounds, dklen>>, Zeros(64))
 \* uncompressed SEC of the point whose compressed SEC is given
 Uncompress(e, P) == Ora(e, "uncompress", P, Zeros(65))
 \* curve membership / decompression of a SEC candidate: <<>> if not a valid
